@@ -77,7 +77,7 @@ MALFORMED = ['', ' ', '(', ')', '((S)', 'S)', '(S', 'S/', '/S', 'S//NP', 'S/NP/N
              'S]', '[', 'S[]', 'S[ ]', 'S[a][b]', 'S[a=b,c]', 'S[a=b,c=d,e=f,g=h]', 'S[a=b=c,d=e,f=g]', '<S>', '<S/NP>',
              '(S/NP>', '<S/NP)', '(S>', '()', '(/)', 'S NP', 'S / NP', '( S / NP )', ',[x]', 'conj[a]', 'LRB', '*START*',
              'S[X]/S[X]', 'S|NP', '(S|NP)|NP', 'S\\NP\\NP', '((S\\NP))', '((S\\NP)/NP)/', 'S[dcl]/(', 'S[(]', 'S[/]',
-             'a b c', 'S[a b]', '\tS', 'S\t/NP', 'S[=,]', 'S[=,=,=]', 'S[,=]', 'Σ[φ]/NP', '(((', ')))', '(S/NP)(S/NP)']
+             'a b c', 'S[a b]', ']', 'conj/[', '[/]', 'S[[]', '\tS', 'S\t/NP', 'S[=,]', 'S[=,=,=]', 'S[,=]', 'Σ[φ]/NP', '(((', ')))', '(S/NP)(S/NP)']
 
 
 def run(ctx):
